@@ -516,3 +516,134 @@ func init() {
 		})
 	}
 }
+
+// ---- the WebTransport session handler itself ----
+
+func init() {
+	register("C09", "wt-handler", false, func(c *Ctx) {
+		firsts := []struct {
+			name string
+			raw  []byte
+		}{
+			{"open-empty", wtEncode(wtMsg{false, []byte("0")}, 0)},
+			{"open-known-sid", nil}, // filled in per execution
+			{"open-unknown-sid", wtEncode(wtMsg{false, []byte(`0{"sid":"nope"}`)}, 0)},
+			{"open-null", wtEncode(wtMsg{false, []byte("0null")}, 0)},
+			{"open-empty-object", wtEncode(wtMsg{false, []byte("0{}")}, 0)},
+			{"open-array", wtEncode(wtMsg{false, []byte("0[]")}, 0)},
+			{"open-sid-number", wtEncode(wtMsg{false, []byte(`0{"sid":1}`)}, 0)},
+			{"open-garbage-json", wtEncode(wtMsg{false, []byte(`0{"sid":`)}, 0)},
+			{"message-first", wtEncode(wtMsg{false, []byte("4hello")}, 0)},
+			{"empty-frame", wtEncode(wtMsg{false, nil}, 0)},
+			{"binary-first", wtEncode(wtMsg{true, []byte{0, 1, 2}}, 0)},
+			{"truncated-frame", []byte{0x7e, 0x10}},
+			{"huge-length", []byte{0x7f, 0xff, 0xff, 0xff, 0xff, 0xff, 0xff, 0xff, 0xff}},
+			{"over-limit", wtEncode(wtMsg{false, []byte("0" + strings.Repeat("x", 2000))}, 0)},
+			{"nothing", nil},
+			{"disconnect", nil},
+			{"no-stream", nil},
+		}
+		n := 0
+		for _, f := range firsts {
+			for _, second := range []string{"", "message", "garbage", "close"} {
+				f, second := f, second
+				n++
+				id := fmt.Sprintf("wt-handler | first=%s then=%s", f.name, second)
+				c.Once(id, func(x *vsched.Exec) {
+					o := config.DefaultServerOptions()
+					o.SetTransports(types.NewSet("polling", "websocket", "webtransport"))
+					o.SetMaxHttpBufferSize(1000)
+					o.SetUpgradeTimeout(3 * time.Second)
+					w := NewWorld(x, o)
+					srv := NewWTServer()
+					canary := &PollClient{W: w, EIO: 4}
+					cr := canary.Get()
+					x.Settle()
+					if pk, err := canary.DecodeResp(cr); err == nil && len(pk) > 0 {
+						if open, e := ParseOpen(pk[0]); e == nil {
+							canary.Sid, _ = open["sid"].(string)
+						}
+					}
+					crec := w.ByID[canary.Sid]
+					// a second polling session that an upgrade may name
+					other := &PollClient{W: w, EIO: 4}
+					or := other.Get()
+					x.Settle()
+					if pk, err := other.DecodeResp(or); err == nil && len(pk) > 0 {
+						if open, e := ParseOpen(pk[0]); e == nil {
+							other.Sid, _ = open["sid"].(string)
+						}
+					}
+					if crec == nil || other.Sid == "" {
+						x.Fail("setup: sessions (%s)", id)
+						return
+					}
+					wc := w.DialWTHandler(srv)
+					raw := f.raw
+					if f.name == "open-known-sid" {
+						raw = wtEncode(wtMsg{false, []byte(`0{"sid":"` + other.Sid + `"}`)}, 0)
+					}
+					vsched.GoNamed("wt-client", func() {
+						if f.name == "no-stream" {
+							return
+						}
+						wc.Connect()
+						if f.name == "disconnect" {
+							wc.Stream.PeerClose()
+							return
+						}
+						if raw != nil {
+							wc.SendRaw(raw)
+						}
+						switch second {
+						case "message":
+							wc.SendPkt(Msg("hi"))
+						case "garbage":
+							wc.SendRaw(wtEncode(wtMsg{false, []byte("zzz")}, 0))
+						case "close":
+							wc.Stream.PeerClose()
+						}
+					})
+					x.Run(x.Now() + 5*time.Second)
+					cls := "[wt-handler first=" + f.name + "]"
+					for _, t := range x.Panics() {
+						x.Fail("panic%s: thread %s: %v (%s)\n%s", cls, t.Name, t.Panic, id, trimStack(t.Stack))
+					}
+					hr := w.Resps[len(w.Resps)-1]
+					if !hr.Returned {
+						x.Fail("handler-stuck%s: the session handler has not returned 5s later (upgrade timeout 3s): blocked=%v (%s)", cls, x.Blocked(), id)
+					}
+					// handshake packets that are not a well-formed open packet must not create or disturb a session
+					created := len(w.Socks) - 2
+					switch f.name {
+					case "open-empty":
+						if created != 1 {
+							x.Fail("wt-handshake%s: %d sessions created by a well-formed handshake (%s)", cls, created, id)
+						}
+					default:
+						if created != 0 {
+							x.Fail("wt-session-created%s: %d sessions created (%s)", cls, created, id)
+						}
+					}
+					if f.name != "open-empty" && f.name != "open-known-sid" && f.name != "no-stream" && !wc.Closed() && !wc.Stream.closed {
+						x.Fail("wt-not-closed%s: the refused connection was not closed by the server (%s)", cls, id)
+					}
+					for _, s := range w.Socks[:2] {
+						if s.Count("close") != 0 {
+							x.Fail("collateral-close%s: an existing session closed with %v (%s)", cls, s.CloseReasons(), id)
+						}
+					}
+					p2 := canary.Post([]Pkt{Msg("c")})
+					x.Run(x.Now() + time.Second)
+					if !p2.wrote || p2.Code != 200 || len(crec.Messages()) != 1 {
+						x.Fail("canary-broken%s: status %d (%s)", cls, p2.Code, id)
+					}
+					x.Outcome = fmt.Sprintf("created=%d closed=%v", created, wc.Closed())
+				})
+			}
+		}
+		c.Res.Distinct = int64(n)
+		c.Sample("wt-handler | first=open-null then=")
+		c.Note("the real OnWebTransportSession handler over a real, initialised webtransport-go server (fake HTTP/3 response writer, the client's stream offered through the server's own StreamHijacker): 17 first packets (well-formed handshake, upgrade for a known / unknown sid, 0null, 0{}, 0[], sid of the wrong type, truncated JSON, non-open first packet, empty / binary / truncated / oversized frames, silence, disconnect, no stream) x a following message / garbage / disconnect; no panic, handler returns, no session created or disturbed by a refused handshake, canary round trip")
+	})
+}
